@@ -74,3 +74,7 @@ package transport
 //@
 //@ func NewConnPipeIPC
 //@   ensures cast("*connipc", result).c == c && cast("*connipc", result).proto.Self == proto.Self && cast("*connipc", result).proto.Peer == proto.Peer && cast("*connipc", result).proto.SelfName == proto.SelfName && cast("*connipc", result).proto.PeerName == proto.PeerName && !cast("*connipc", result).open && !cast("*connipc", result).closed && cast("*connipc", result).maxrx == 0
+//@
+//@ func (*connHandshaker).Wait
+//@   before call:Wait#1 assert len(h.doneq) == 0 && !h.closed
+//@   ensures h.closed ==> result1 == mangos.ErrClosed && isnil(result0)
